@@ -282,10 +282,18 @@ def step (useL2 : Bool) (c : Cache Nat) (line : String) : Cache Nat × String :=
           | _ => "redb r=unparsed"
         else if ty == "tx" then
           match parseOf (Transaction.visit s) with
-          | .ok (o, _) => s!"redb r={rs (fun x => "ok obj=(" ++ txF x ++ ")") (Redb.txFromBytes ⟨0, o.slice.bytes⟩)} fw=none"
+          | .ok (o, _) => s!"redb r={rs (fun x => "ok obj=(" ++ txFH x ++ ")") (Redb.txFromBytes ⟨0, o.slice.bytes⟩)} fw=none"
           | _ => "redb r=unparsed"
         else "bad-op"
       (c, out)
+  | ["redbraw", "txouts", h] =>
+    -- `from_bytes` applied to stored bytes directly (for an output list only the count is re-read)
+    match fromHex h with
+    | some b =>
+      match Redb.txOutsFromBytes ⟨0, b⟩ with
+      | .ok o => (c, s!"redbraw r=ok n={o.n} v={sl o.slice}")
+      | _ => (c, "redbraw r=panic")
+    | none => (c, "bad-op")
   | ["cmp", a, b] =>
     match fromHex a, fromHex b with
     | some a, some b =>
